@@ -75,12 +75,19 @@ func (f *Mapcar) Call(s *slip.Scope, args slip.List, depth int) (result slip.Obj
 				ca[i-1] = l2[n]
 			}
 			rlist[n] = caller.Call(s, ca, d2)
+			if _, exit := rlist[n].(slip.NonLocalExit); exit {
+				// return-from, return or go: control is leaving the function.
+				return rlist[n]
+			}
 		}
 	} else {
 		// The most common case.
 		rlist = make(slip.List, len(list))
 		for i, v := range list {
 			rlist[i] = caller.Call(s, slip.List{v}, d2)
+			if _, exit := rlist[i].(slip.NonLocalExit); exit {
+				return rlist[i]
+			}
 		}
 	}
 	return rlist
